@@ -310,4 +310,24 @@ PROPS = {
             "Miri (data-race / UB interpreter) on the smallest scenario: thorough tier",
         ],
     },
+    "C16": {
+        "bin": "m_lsp",
+        "args": ["--glas-bin", GLAS_PLAIN, "--glas-verif-bin", GLAS_VERIF],
+        "build": BUILD_VH + BUILD_GLAS_PLAIN + BUILD_GLAS_VERIF,
+        "level": "exploration",
+        "budget": {"quick": 30, "thorough": 900},
+        "timeout": {"quick": 1500, "thorough": 14400},
+        "death_is_violation": False,
+        "shards": {"quick": 8, "thorough": 8},
+        "rule": ("races: 1-2 generated documents (8-24 items each, non-ASCII strings/comments), 2-7 line-structure-changing edits, after the open and after every edit a batch of 1-16 requests (hover, definition, references, documentHighlight, "
+                 "completion, rename, prepareRename, semanticTokens/full) aimed at valid positions of the version just sent; the whole byte stream is written without waiting, split at seeded points with seeded micro-pauses, "
+                 "to the server built with --features verif and GLAS_VERIF_SCHED seeded delays at its yield points. A sequential reference run (plain binary, every request asked and awaited at EVERY version) gives the per-version answers. "
+                 "evaluations = races; non-trivial = race with at least one answered request; distinct by the hash of the server's own message order (responses and notifications)."),
+        "assumptions": [
+            "(a) every request answered exactly once by a 30 s barrier, else deadlock classification (probe unanswered + flat CPU, gdb stacks attached) or inconclusive; (b) a probe after the burst is answered; "
+            "(c) a result must equal (normal form) the sequential answer at the version the request was issued against; errors and RequestCancelled are accepted; a result equal to another version's answer or to none is a violation; "
+            "(d) after 300 ms of silence the server's text equals the client's final text and the LAST publishDiagnostics per document equals the diagnostics of the final text (ranges converted with the model's UTF-16 arithmetic)",
+            "yield points only delay real threads at points where the OS may preempt anyway; their hit counts are in the evidence",
+        ],
+    },
 }
